@@ -413,13 +413,23 @@ def bpe_train(char_list, vocab_size=10000, min_count=1, max_char_code=0):
     # Initialize coding, counts, and lengths
     new_code = max_char_code + 1
     pair_counts = count_pairs(compressed_chars)
-    current_min_count = np.max(np.array(list(pair_counts.values()))) // 2
+    current_min_count = 0
+    for pair_count in pair_counts.values():
+        current_min_count = max(current_min_count, pair_count // 2)
     code_lengths = {-1: 1}
 
     # Initialize code words and lengths so numba gets the types right
     pair_to_replace, count = pruning_max_freq_pair(
         pair_counts, code_lengths, max_char_code, min_count=current_min_count
     )
+    if pair_to_replace[0] < 0:
+        # No pair of codes occurs more than once: there is nothing to learn.
+        tokens = [""]
+        tokens.pop()
+        code_list = [pair_to_replace]
+        code_list.pop()
+        return tokens, code_list, compressed_chars, max_char_code
+
     tokens = [chr(pair_to_replace[0]) + chr(pair_to_replace[1])]
     code_list = [pair_to_replace]
     code_lengths[new_code] = pair_length(pair_to_replace, code_lengths, max_char_code)
@@ -1003,7 +1013,13 @@ class BytePairEncodingVectorizer(BaseEstimator, TransformerMixin):
              The transformed data, with the return type depending on the value of ``return_type``.
          """
         check_is_fitted(self, ["tokens_", "code_list_", "max_char_code_"])
-        encodings = bpe_encode_all(X, self.code_list_, self.max_char_code_)
+        code_list = self.code_list_
+        if len(code_list) == 0:
+            # numba cannot infer the element type of an empty Python list
+            code_list = numba.typed.List.empty_list(
+                numba.types.UniTuple(numba.types.int64, 2)
+            )
+        encodings = bpe_encode_all(X, code_list, self.max_char_code_)
 
         if self.return_type == "sequences":
             return encodings
